@@ -30,7 +30,7 @@ RULE = ("histories = 1-3 coexisting models (more via new_model) + 4-40 ops out o
         "deepcopy / pickle round trip of a model (directly or through one of its agents / its AgentSet) whose copy must mirror every "
         "view with its own agent objects, go on as a model of its own - continuing its own unique_id sequence - and leave the "
         "original alone, "
-        "n = 30; a SCALE stream in every run (registries of 1025 / 2049 / 4097 agents of three classes over two models, oracle-only: bulk create_agents, interleaved single removes, remove_all_agents, agents.do / shuffle_do(\"remove\"), re-creation; 129 / 257 agents also through the model; 21 sizes from 8 to 8193 in the thorough tier and whenever the source moved); every view of every model is observed after every op and the oracle is evaluated after every atomic action "
+        "n = 30; a USER-CODE stream (1/6 more histories, implementation + oracle only, what the user code does is recorded in the shadow history through hooks): a Model subclass overriding register_agent / deregister_agent (calling super; creating a companion inside the registration of another agent, a tombstone or the removal of another agent inside a deregistration), constructors that create / remove agents or raise after super().__init__(), agents assigning their own unique_id (several sharing one), a diamond subclass, each with copies / pickles of the model and further creation in between and at the end; a SCALE stream in every run (registries of 1025 / 2049 / 4097 agents of three classes over two models, oracle-only: bulk create_agents, interleaved single removes, remove_all_agents, agents.do / shuffle_do(\"remove\"), re-creation; 129 / 257 agents also through the model; 21 sizes from 8 to 8193 in the thorough tier and whenever the source moved); every view of every model is observed after every op and the oracle is evaluated after every atomic action "
         "(not inside a running remove()/remove_all_agents()); non-trivial = at least 3 ops, one creation and one removal or "
         "activation; distinct = by SHA1 of the history; enumerator (thorough / on a break): all sequences of length <= 3 (4) over 21 ops")
 TRUSTED_BASE = [
@@ -68,6 +68,7 @@ NCLS = 11  # A, B(A), C(B), D, mesa.Agent, four classes overriding remove(): E(A
 #            (classes 11, 12 - constructors that raise before / after super().__init__() - only in the oracle-only stream)
 OVERRIDING = (5, 6, 7, 8)
 PLAIN = (0, 1, 2, 3, 4, 9, 10)
+OWN_ID = 15          # classes 13-16 (Spawner, Killer, OwnId, Dia) and RegModel: user code in the loop, oracle-only stream
 
 
 def _gen_cls(rng):
@@ -297,7 +298,33 @@ def gen_cases(rng, tier):
     # after super().__init__(), callbacks that raise in the middle of an activation, large n
     for i in range(n // 5):
         cases.append(_gen_oracle_only(rng))
+    # USER CODE stream (oracle-only): Model subclass overriding register_agent / deregister_agent (calling super, creating or
+    # removing agents inside), constructors that create / remove agents or raise after super().__init__(), agents assigning their
+    # own unique_id, a diamond subclass; copies / pickles of the model and further creation after each
+    for i in range(n // 6):
+        cases.append(_gen_usercode(rng))
     return _scale_cases(tier) + cases
+
+
+def _gen_usercode(rng):
+    c = _gen_history(rng, rng.randint(6, 18), setapi=False)
+    nm = c["nmodels"]
+    ops = []
+    nb = 0
+    for op in c["ops"]:
+        if op[0] in ("reorder_all", "reorder_type", "new_model"):
+            continue
+        if op[0] == "create" and rng.random() < 0.6:
+            cl = rng.choice([0, 0, 1, 12, 13, 14, 15, 16, 16])
+            op = ["create", op[1], cl, rng.randrange(nb + 1) if cl == 14 else rng.randint(0, 5)] if cl != 12 else ["create_raise", op[1], 12]
+        elif op[0] == "create_many" and rng.random() < 0.5:
+            op = ["create_many", op[1], rng.choice([0, 1, 13, 15, 16]), rng.randint(1, 3), "scalar", rng.randint(0, 5), "pos"]
+        ops.append(op)
+        nb += 2
+        if rng.random() < 0.3:
+            ops.append(["clone_model", rng.randrange(nm), rng.choice(COPY_KINDS)])
+    ops.append(["clone_model", rng.randrange(nm), rng.choice(COPY_KINDS)])
+    return {"nmodels": nm, "ops": ops, "oracle_only": True, "usercode": True}
 
 
 # ---- SCALE stream (harness/SCALE_NOTE.md): registries whose sizes CROSS thresholds.  The big ones are implementation + oracle only
@@ -415,7 +442,12 @@ def enumerate_cases(tier, broken=False):
     """every sequence of length <= 3 (4 in the thorough tier) over 21 ops on two models"""
     depth = 4 if tier == "thorough" else 3
     if broken:
+        import random as _random
+
         yield from _scale_cases("thorough")      # the source moved: look at scale first
+        r2 = _random.Random(4242)
+        for _ in range(400):
+            yield _gen_usercode(r2)
     for d in range(1, depth + 1):
         for seq in itertools.product(range(len(_ALPHABET)), repeat=d):
             yield {"nmodels": 2, "ops": [_expand(_ALPHABET[i]) for i in seq]}
@@ -522,16 +554,53 @@ class _Driver:
         self.shared = {}        # equal argument specifications share ONE mutable object across calls and models
         self.abandoned = []
         self.abandon = bool(case.get("abandon_iter"))
-        for cls0 in (A, B, C, D, E, F, G, H, Zf, Mixin, J, RB, RA):
+        # ---- USER CODE in the loop (harness/USERCODE_NOTE.md), used by the oracle-only "usercode" stream only
+        class Spawner(A):      # the constructor creates another agent (after super().__init__())
+            def __init__(self, model, val=0):
+                super().__init__(model, val)
+                drv.ctor_create(self, 3, 80)
+
+        class Killer(A):       # the constructor removes another agent of the history (the one with creation index val)
+            def __init__(self, model, val=0):
+                super().__init__(model, val)
+                drv.ctor_remove(self, val)
+
+        class OwnId(A):        # assigns its own unique_id after the framework drew one (several agents may share it)
+            def __init__(self, model, val=0):
+                super().__init__(model, val)
+                self.unique_id = 1000 + (val if isinstance(val, int) else 0) % 3
+
+        Dm = type("Dm", (A,), {})
+        Dia = type("Dia", (B, Dm), {})      # a diamond over A
+
+        class RegModel(mesa.Model):
+            """overrides the public hooks register_agent / deregister_agent (calling super) and runs user code inside them"""
+
+            def register_agent(self, agent):
+                drv.on_register(self, agent)             # the shadow history learns of the agent here (it has its id already)
+                super().register_agent(agent)
+                if type(agent) is A:                     # a companion created INSIDE the registration of another agent
+                    drv.model_create(self, 3, 70)
+
+            def deregister_agent(self, agent):
+                super().deregister_agent(agent)
+                if type(agent) is B:                     # a tombstone created inside the deregistration
+                    drv.model_create(self, 3, 71)
+                elif type(agent) is Dia:                 # ... or another agent removed inside it
+                    drv.model_remove_first(self, agent)
+
+        for cls0 in (A, B, C, D, E, F, G, H, Zf, Mixin, J, RB, RA, Spawner, Killer, OwnId, Dm, Dia, RegModel):
             _reg(cls0)
-        self.classes = [A, B, C, D, mesa.Agent, E, F, G, H, Zf, J, RB, RA]
+        self.classes = [A, B, C, D, mesa.Agent, E, F, G, H, Zf, J, RB, RA, Spawner, Killer, OwnId, Dia]
+        self.usercode = bool(case.get("usercode"))
+        self.model_cls = RegModel if self.usercode else mesa.Model
         # prior history in the same process: a model that came and went, with agents of the same classes
         prior = mesa.Model(seed=3)
         for cls0 in (A, D, C, Zf):
             cls0(prior, 1)
         prior.remove_all_agents()
         self.cidx = {c: i for i, c in enumerate(self.classes)}
-        self.models = [mesa.Model(seed=7 + i) for i in range(case["nmodels"])]
+        self.models = [self.model_cls(seed=7 + i) for i in range(case["nmodels"])]
         self.born = []          # agents, index = key (strong references for the whole history)
         self.key = {}           # id(agent) -> key
         # the shadow history (oracle side)
@@ -559,6 +628,8 @@ class _Driver:
 
     def adopt(self, a, m, c):
         """a freshly constructed agent: give it its key, check its unique_id (the property's id clause)"""
+        if id(a) in self.key:
+            return self.key[id(a)]      # already learnt of through the register_agent hook of a user Model subclass
         k = len(self.born)
         self.born.append(a)
         self.key[id(a)] = k
@@ -569,10 +640,14 @@ class _Driver:
         self.s_cls.append(c)
         self.s_uid.append(uid)
         self.s_removed.append(False)
-        if type(uid) is not int or uid != exp:
+        if c == OWN_ID:
+            pass      # the agent replaces the id the framework gave it: uniqueness is then its own business
+        elif type(uid) is not int or uid != exp:
             self.fail("C02/Agent.unique_id/not-sequential",
                       f"agent number {exp} created for model {m} (class {self.classes[c].__name__}) got unique_id {uid!r}; ids must be 1, 2, 3, ... in creation order per model")
         seen = self.s_uids.setdefault(m, {})
+        if c == OWN_ID:
+            return k
         try:
             first = seen.setdefault(uid, k)
         except TypeError:
@@ -588,7 +663,9 @@ class _Driver:
             return None
         cls = self.classes[c]
         a = cls(self.models[m]) if c == 4 else cls(self.models[m], v)
-        k = self.adopt(a, m, c)
+        k = self.kof(a) if id(a) in self.key else self.adopt(a, m, c)
+        if c == OWN_ID:
+            self.s_uid[k] = a.unique_id
         self.check("constructor")
         return k
 
@@ -628,8 +705,46 @@ class _Driver:
                 keys.append(self.adopt(x, m, c))
             else:
                 keys.append(self.kof(x))
+            if c == OWN_ID:
+                self.s_uid[keys[-1]] = x.unique_id
         self.check("create_agents")
         return keys
+
+    # ---- hooks of the user-code classes (RegModel, Spawner, Killer): what the user code does is recorded in the shadow history
+    def on_register(self, model, agent):
+        if id(agent) in self.key:
+            return
+        for m, mm in enumerate(self.models):
+            if mm is model:
+                self.adopt(agent, m, self.cidx.get(type(agent), 0))
+                return
+
+    def model_create(self, model, c, v):
+        return self.classes[c](model, v)        # a copied model is not part of the history: on_register ignores it
+
+    def model_remove_first(self, model, agent):
+        for x in list(model.agents):
+            if x is not agent and type(x) is self.classes[3]:
+                if self.kof(x) >= 0:
+                    self.s_removed[self.kof(x)] = True
+                    self.s_hidden.discard(self.kof(x))
+                x.remove()
+                return
+
+    def ctor_create(self, agent, c, v):
+        self.classes[c](agent.model, v)
+
+    def ctor_remove(self, agent, val):
+        if self.kof(agent) < 0 or not (isinstance(val, int) and 0 <= val < len(self.born)):
+            return
+        p = self.born[val]
+        if p is agent or p.model is not agent.model:
+            return
+        k = self.kof(p)
+        if self.s_cls[k] not in OVERRIDING:
+            self.s_removed[k] = True
+            self.s_hidden.discard(k)
+        p.remove()
 
     # hooks called by the overriding remove() methods of E, F, G
     def spawn(self, agent, c, v):
@@ -836,7 +951,7 @@ class _Driver:
     def run_op(self, op):
         kind = op[0]
         if kind == "new_model":
-            self.models.append(self.mesa.Model(seed=7 + len(self.models)))
+            self.models.append(self.model_cls(seed=7 + len(self.models)))
             self.s_count.append(0)
             self.s_reordered.append(False)
             self.check("Model()")
